@@ -3,7 +3,7 @@
 (* Trace validation: reads the ndjson trace recorded from the real NFT     *)
 (* contracts (env TRACE), advances the sparse ghost of Nft.tla by each      *)
 (* recorded step and evaluates every monitor on it.  Violations are        *)
-(* collected (VIOL lines); after a violation the rest of that run is        *)
+(* collected (VIOL lines); after a violation of a property the monitors of that property are        *)
 (* skipped and validation resumes at the next reset event.  `cnt` counts,   *)
 (* per monitor, the steps on which its antecedent held.                     *)
 (***************************************************************************)
@@ -20,27 +20,26 @@ Norm(ev) == [op  |-> [op |-> ev.op.op, sp |-> ev.op.sp, from |-> ev.op.from, to 
              now |-> ev.now, res |-> ev.res, ret |-> ev.ret, obs |-> NormObs(ev.obs), run |-> ev.run, i |-> ev.i]
 
 NoObs == [supply |-> -1, glob |-> <<>>, otok |-> <<>>]
-Init == l = 1 /\ g = GInit("base", NoObs) /\ dead = FALSE /\ cnt = [m \in Monitors |-> 0]
+Init == l = 1 /\ g = GInit("base", NoObs) /\ dead = {} /\ cnt = [m \in Monitors |-> 0]
 
 Report(ev, m) == PrintT(<<"VIOL", ToJson([run |-> ev.run, i |-> ev.i, line |-> l, mon |-> m,
-                                          prop |-> PropOf(m), key |-> Key(m, g, ev)])>>)
+                                          prop |-> PropOf(m), key |-> Key(m, g, ev), after |-> dead])>>)
 
 \* (operator arguments are evaluated once; see MC_Nft)
 Judge(ev, g2, f) ==
   /\ \A m \in f : Report(ev, m)
-  /\ dead' = (f # {})
+  /\ dead' = dead \cup {PropOf(m) : m \in f}
   /\ g' = g2
   /\ cnt' = [m \in Monitors |-> cnt[m] + IF Ante(m, g, ev) THEN 1 ELSE 0]
 
-JudgeG(ev, g2) == Judge(ev, g2, FailingX(g, g2, ev))
+JudgeG(ev, g2) == Judge(ev, g2, {m \in FailingX(g, g2, ev) : PropOf(m) \notin dead})
 JudgeEv(ev) == JudgeG(ev, GNext(g, ev))
 
 Next ==
   /\ l <= Len(Rec)
   /\ l' = l + 1
   /\ LET raw == Rec[l] IN
-     IF raw.op.op = "reset" THEN g' = GInit(raw.op.flavour, raw.obs) /\ dead' = FALSE /\ UNCHANGED cnt
-     ELSE IF dead THEN UNCHANGED <<g, dead, cnt>>
+     IF raw.op.op = "reset" THEN g' = GInit(raw.op.flavour, raw.obs) /\ dead' = {} /\ UNCHANGED cnt
      ELSE JudgeEv(Norm(raw))
   /\ (l = Len(Rec) => PrintT(<<"DONE", l, ToJson(cnt')>>))
 
